@@ -474,6 +474,36 @@ class Check:
         return _rel(path)
 
 
+class Hang(Exception):
+    """the code under test did not return within the time limit"""
+
+
+class time_limit:
+    """`with time_limit(2.0): call()` raises Hang if the call takes longer (SIGALRM, main thread only).
+    Used only to turn an endless loop of the code under test into an observation; generous limits,
+    never a timing comparison."""
+
+    def __init__(self, seconds: float):
+        self.seconds = seconds
+
+    def _handler(self, signum, frame):
+        raise Hang()
+
+    def __enter__(self):
+        import signal
+
+        self._old = signal.signal(signal.SIGALRM, self._handler)
+        signal.setitimer(signal.ITIMER_REAL, self.seconds)
+        return self
+
+    def __exit__(self, *a):
+        import signal
+
+        signal.setitimer(signal.ITIMER_REAL, 0)
+        signal.signal(signal.SIGALRM, self._old)
+        return False
+
+
 def _rel(path: Path) -> str:
     try:
         return str(path.relative_to(VERIF))
